@@ -15,7 +15,7 @@ from vlib.tlaparse import to_json, parse_behaviour_text
 WEAK_CASES = ["SkipTrustLevel", "AdjacentIgnoresNextVals", "NoExpiry", "FutureHeaderOK", "TrustLevelOnNewSet"]
 WEAK_CLIENT = ["SkipTrustLevel", "AdjacentIgnoresNextVals", "NoExpiry", "FutureHeaderOK", "TrustLevelOnNewSet",
                "MismatchAlsoCountsAsMatch", "NoWitnessNeeded", "BackwardsUnbound", "ReplacementHashUnchecked",
-               "PromotedWitnessStays"]
+               "PromotedWitnessStays", "PartialTraceOnBenignError"]
 PROPS = {"TrustRootOnly", "StoreSound", "WitnessConfirmed", "IndependentWitness", "NoConfirmationFromSilence", "AttackReported",
          "AttackStoresNothing", "StoreMonotone"}
 CASE_PROPS = {"VerifierSound", "AdjacentSound", "NonAdjacentSound", "BackwardsSound"}
